@@ -1,6 +1,7 @@
 (* Properties/C14.v -- Header collections are ordered, case-insensitive multimaps of ASCII strings.
    This file contains only property-level statements; each is closed by [exact <lemma>]. *)
-From SV Require Import Base.Bytes Base.BytesP Model.Headers Proofs.HeadersP Model.RustStr Model.Request Spec.Framing Proofs.FramingP.
+From SV Require Import Base.Bytes Base.BytesP Model.Headers Proofs.HeadersP Model.RustStr Model.Request Spec.Framing Proofs.FramingP
+  Tie.HeadersTie Generated.SourceParams.
 
 (* C14.1  Every operation of the model (transcribed from src/headers.rs) behaves exactly like the
    ordered multimap specification [spec_step] (filter-by-case-insensitive-name), for every state
@@ -95,6 +96,18 @@ Example c14_nonvacuous :
   = ([([98],[50])], [RUnit; RUnit; RUnit; RList [[49];[51]]; ROpt None; RList [[49];[51]]; ROpt (Some [50])]).
 Proof. vm_compute. reflexivity. Qed.
 
+(* C14.src  HeaderList as read from src/headers.rs ON THIS RUN (props/srcparams.py checks the loop shapes of add,
+   get_only, get_all, remove_only, remove_all against the ones Model/Headers.v transcribes and extracts what varies):
+   every loop compares names with str::eq_ignore_ascii_case, and remove_all takes headers out with Vec::remove --
+   the model's remove_all is the loop with the method the source names (Vec::swap_remove would be the loop of
+   c14_swap_remove_refuted) *)
+Theorem c14_compare_is_the_source : src_hdr_compare = m_eq_ignore_ascii_case.
+Proof. exact headers_compare_tie. Qed.
+Theorem c14_remove_all_is_the_source : remove_all_of_method src_hdr_remove_method = Some remove_all.
+Proof. exact headers_remove_all_tie. Qed.
+Theorem c14_translation_complete : src_problems_headers = 0%nat.
+Proof. exact headers_translated. Qed.
+
 Print Assumptions c14_refines_multimap.
 Print Assumptions c14_get_all_is_filter.
 Print Assumptions c14_get_only_iff_unique.
@@ -108,3 +121,6 @@ Print Assumptions c14_oracle_sound.
 Print Assumptions c14_swap_remove_refuted.
 Print Assumptions c14_handler_sees_sent_minus_consumed.
 Print Assumptions c14_request_oracle_sound.
+Print Assumptions c14_compare_is_the_source.
+Print Assumptions c14_remove_all_is_the_source.
+Print Assumptions c14_translation_complete.
